@@ -368,7 +368,14 @@ class World:
         muts = [i for i, e in enumerate(ev) if e[0] == "mut"]
         stops = [i for i, e in enumerate(ev) if e == ("systemctl", "stop")]
         starts = [i for i, e in enumerate(ev) if e == ("systemctl", "start")]
-        return {"mutations": len(muts),
+        # for every systemctl call: had a system location already been written / removed when it was executed?
+        w, seen = [], False
+        for e in ev:
+            if e[0] == "mut":
+                seen = True
+            else:
+                w.append(seen)
+        return {"mutations": len(muts), "w": w,
                 "stop_before_first_mutation": (not muts) or (bool(stops) and stops[0] < muts[0]),
                 "start_after_last_mutation": (not muts) or (not starts) or starts[-1] > muts[-1],
                 "systemctl": [e[1] for e in ev if e[0] == "systemctl"],
